@@ -63,3 +63,21 @@ theorem C10_exchange_verdict (hack : Bool) (f0 : Flow) (r : AReq) (wr0 : BodyWri
 #guard (xRun true xPayload xStreamEx xPostEx xHuge).1.closeReasons == []
 #guard (xRun true xPayload xStreamEx xPostEx xEarly).1.closeReasons == []
 #guard (xRun true xPayload xStreamEx xPostEx xMid).1.closeReasons == []
+
+/-- **C10 (the verdict belongs to one exchange).** The flow `as_new_flow` builds for a redirect starts with
+    exactly the reasons the *request* gives — HTTP/1.0, `Connection: close` on the original request — and with
+    none of what happened during the exchange that was redirected: not a refused `Expect`, not the server's
+    `Connection: close`, not a close-delimited body. (`followFlow` is `Flow.new` on the original request with a
+    new method, then the target and the suppression list installed; the reasons are those of `C10_initial`.) -/
+theorem C10_follow (prev : AReq) (nm : Method) (uri : Uri) (sameHost : Bool) (r : CloseReason) :
+    r ∈ (followFlow prev nm uri sameHost).closeReasons ↔
+      (r = .http10 ∧ prev.version = .h10) ∨ (r = .clientClose ∧ hasHdr prev.orig "connection" "close" = true) := by
+  have h : (followFlow prev nm uri sameHost).closeReasons = (Flow.new nm prev.version prev.uri prev.orig).closeReasons := rfl
+  rw [h]
+  exact C10_initial nm prev.version prev.uri prev.orig r
+
+/-- in particular `Not100Continue` never carries over to the next exchange -/
+theorem C10_follow_not100 (prev : AReq) (nm : Method) (uri : Uri) (sameHost : Bool) :
+    CloseReason.not100 ∉ (followFlow prev nm uri sameHost).closeReasons := by
+  intro h
+  rcases (C10_follow prev nm uri sameHost .not100).mp h with ⟨h1, _⟩ | ⟨h1, _⟩ <;> cases h1
